@@ -19,12 +19,14 @@ run the clauses of the worker protocol (C03), of the quota (C09) and of prompt
 termination (C05/C08) are evaluated on the recorded events.
 """
 import itertools
+import pickle
 import json
 import sys
 
 import billiard.common as common
 import billiard.pool as pool
 
+UNPICKLABLE = (ValueError, RuntimeError, TypeError, AttributeError, NotImplementedError, pickle.PicklingError)
 KINDS = ('ok', 'raise', 'unpicklable', 'refused', 'term', 'term_send')
 
 
@@ -76,10 +78,15 @@ def run(kinds, maxtasks, handshake):
                 first_ready.add(job)
                 if kind_of[job] == 'unpicklable':
                     events.append(('put_failed', job))
-                    raise ValueError('cannot pickle result')
+                    # serialisation fails with whatever the object's reduce raises: not only pickle's own errors
+                    raise UNPICKLABLE[job % len(UNPICKLABLE)]('cannot pickle result')
                 if kind_of[job] == 'term_send':
                     signal()
             events.append(('ready', job, body[2][0]))
+            if job in first_ready and kind_of[job] == 'unpicklable':
+                ok, rec = body[2]
+                if ok or getattr(rec, 'type', None) is not pool.MaybeEncodingError:
+                    events.append(('not_an_encoding_error', job))
 
     w = pool.Worker.__new__(pool.Worker)
     w.outq, w.inq, w.synq = Q(), None, (object() if handshake else None)
@@ -124,6 +131,11 @@ def judge(kinds, maxtasks, handshake, events, outcome, ensured):
             bad.append('job %d was run but %d results were sent' % (job, readies.count(job)))
         if job in ran and events.index(('ack', job)) > events.index(('run', job)):
             bad.append('job %d was run before it was acknowledged' % job)
+    for e in events:
+        if e[0] == 'not_an_encoding_error':
+            bad.append('job %d: the result could not be serialised, but what was sent instead is not an encoding-error failure' % e[1])
+    if outcome[0] == 'raise' and outcome[1] != 'SystemExit':
+        bad.append('the worker loop was left by %s (an unserialisable result must not kill the worker)' % outcome[1])
     for job in ran:
         if job not in acks:
             bad.append('job %d was run without an ACK' % job)
